@@ -67,7 +67,8 @@ def extract(config='pinned', include_root=None, tu=None):
         tool_h = hashlib.sha256(fh.read()).hexdigest()
     key = tree_hash(include_root, [config, flags, tu_h, tool_h])
     os.makedirs(CACHE, exist_ok=True)
-    out = os.path.join(CACHE, 'facts_%s_%s.json' % (config, key))
+    scratch = not os.path.abspath(include_root).startswith(os.path.abspath(REPO) + os.sep)
+    out = os.path.join(CACHE, '%s_%s_%s.json' % ('scratch' if scratch else 'facts', config, key))
     if os.path.exists(out) and os.path.getsize(out) > 0:
         return out
     tmp = out + '.tmp.%d' % os.getpid()
@@ -99,6 +100,19 @@ def load_facts(config='pinned', include_root=None):
     if path not in _FACTS_MEMO:
         _FACTS_MEMO[path] = Facts(path)
     return _FACTS_MEMO[path]
+
+
+def drop_scratch():
+    """Forget and delete fact bases extracted from scratch trees (mutants, other revisions)."""
+    for p in list(_FACTS_MEMO):
+        if os.path.basename(p).startswith('scratch_'):
+            del _FACTS_MEMO[p]
+    try:
+        for n in os.listdir(CACHE):
+            if n.startswith('scratch_'):
+                os.unlink(os.path.join(CACHE, n))
+    except OSError:
+        pass
 
 
 class Obligation:
